@@ -63,7 +63,9 @@ def register(J):
         if j.name not in {x.name for x in J}:
             J.append(j)
     # re-opened base sections and a base whose section list has a header without keys: part of the quick set
-    for bg, og in (("121", "11"), ("121", "1"), ("212", "2"), ("011", "01")):
+    for bg, og in (("121", "11"), ("121", "1"), ("212", "2"), ("011", "01"),
+                   # ... and re-opened OVERRIDE sections
+                   ("1", "121"), ("12", "121"), ("11", "121")):
         for j in J:
             if j.name == "merge.b%s.o%s" % (bg, og):
                 j.tiers = Q
